@@ -86,7 +86,7 @@ func TestVerifDriverC04(t *testing.T) {
 		}
 	}
 	names := []string{"a", "b.c", "x\xffy"}
-	tagSets := []map[string]string{nil, {}, {"k": "1"}, {"k": "2", "j": "3"}, {"j": "\xfe"}}
+	tagSets := []map[string]string{nil, {}, {"k": "1"}, {"k": "2", "j": "3"}, {"j": "\xfe"}, {"": "x"}, {"": "y", "k": ""}}
 	var ops []vdC04Op
 	for _, n := range names {
 		ops = append(ops, vdC04Op{sub: true, name: n})
